@@ -154,9 +154,25 @@ def setup_profile():
     curid = ",".join([str(steps.index(cc) + 1) for cc in cur])
     for ii, st in enumerate(steps):
         print("  {}: {}".format(ii+1, st))
-    stp = input("(currently '{}'): ".format(curid))
-    if stp:
-        pf["preprocessing"] = [steps[int(ii) - 1] for ii in stp.split(",")]
+    while True:
+        stp = input("(currently '{}'): ".format(curid))
+        if stp:
+            sel = [steps[int(ii) - 1] for ii in stp.split(",")]
+            # the selection must contain the steps required by its members
+            # (`needed` grows while it is iterated over)
+            needed = list(sel)
+            for pid in needed:
+                for req in preproc.get_func(pid).steps_required or []:
+                    if req not in needed:
+                        needed.append(req)
+            missing = needed[len(sel):]
+            if missing:
+                print("Please also select the required steps {}.".format(
+                    ",".join([str(steps.index(mm) + 1) for mm in missing])))
+                continue
+            # the steps are applied in the order in which they are stored
+            pf["preprocessing"] = preproc.autosort(sel)
+        break
 
     print("\nSelect model number:")
     models = sorted(model.models_available.keys())
